@@ -59,8 +59,11 @@ PROPS = {
     "C04": dict(ties=['Loops', 'Protocol', 'BVector', 'Schedules', 'Consts', 'GoIpa.Lemmas.IpaAlgebra', 'GoIpa.Lemmas.FoldingScalars', 'GoIpa.Props.C04Value', 'GoIpa.Lemmas.Simulation', 'GoIpa.Props.ConcreteExec'], level="proof", selftest=True, modes=[{"name": "default"}, {"name": "cpu3", "prefix": taskset(3)}, {"name": "cpu6-procs5", "prefix": taskset(6), "env": {"GOMAXPROCS": "5"}}],
                 rule="evaluation points 0,1,254,255,256,257,2^64-1,2^64,2^64+1,r-1,r-256,random x polynomials zero/constant/unit/sparse/r-1/random; result p(z) must be accepted, p(z)+1, p(z)-1 and 0 rejected (asserted on the implementation); barycentric value against direct Lagrange evaluation."),
     "C05": dict(ties=['Formulas', 'Consts', 'Selector', 'Precomp', 'PrecompFull', 'BatchConv', 'GoIpa.Props.C05Translated'], level="proof",
-                modes=[{"name": "default"}, {"name": "cpu6", "prefix": taskset(6)}, {"name": "cpu3-procs3", "prefix": taskset(3)}],
+                modes=[{"name": "default"}, {"name": "cpu6", "prefix": taskset(6)}, {"name": "cpu3-procs3", "prefix": taskset(3)},
+                       {"name": "crs-prefix-first", "env": {"VERIF_CRS_FIRST": "5"}, "filter": "^(ptab |commit s|commit r)"}],
                 thorough=dict(modes=[{"name": "default"}, {"name": "cpu6", "prefix": taskset(6)}, {"name": "cpu3-procs3", "prefix": taskset(3)},
+                                     {"name": "crs-prefix-first", "env": {"VERIF_CRS_FIRST": "5"}, "filter": "^(ptab |commit s|commit r)"},
+                                     {"name": "crs-prefix-first-200", "env": {"VERIF_CRS_FIRST": "200"}, "filter": "^(ptab |commit r)"},
                                      {"name": "cpu5", "prefix": taskset(5)}, {"name": "cpu7", "prefix": taskset(7)}, {"name": "cpu12", "prefix": taskset(12)}]),
                 rule="per basis position and per window position: window values {0,1,2^(w-1)-1,2^(w-1),2^(w-1)+1,2^w-2,2^w-1} x carry-in {0,1}; all-ones carry chains; r-1, r-2, powers of two; single hot coefficient at the basis positions; short vectors; dense random; linearity/update triples; audit of precomputed table entries against (j+1)2^(wk)G_i."),
     "C06": dict(ties=['Formulas', 'Elements', 'SqrtChain', 'SqrtFp', 'GoIpa.Props.C06Exact'], level="proof",
